@@ -323,6 +323,7 @@ def do_op(ctx, m, server, op, i, nodes, bufs, buses, ledger_nodes, live_bufs, fr
             raise PathAbort('head/tail need a group')
         nxt = server._node_allocator._temp
         val = ctx.real(f'val{i}', -10, 10)
+        action_arg = ACTIONS[ai]
         if op == 'synth':
             args = ['freq', val, 'amps', [val, 0.5]]
             variant = ctx.choose(f'variant{i}', 3) if (i == 0 or tier_deep[0]) else 0
@@ -330,11 +331,11 @@ def do_op(ctx, m, server, op, i, nodes, bufs, buses, ledger_nodes, live_bufs, fr
                 args = {'freq': val, 'amps': [val, 0.5]}
             if tk == 0 and variant == 2:
                 target = server
-            o = nod.Synth('default', args, target, ACTIONS[ai])
+            o = nod.Synth('default', args, target, action_arg)
         elif op == 'group':
-            o = nod.Group(target, ACTIONS[ai])
+            o = nod.Group(target, action_arg)
         else:
-            o = nod.ParGroup(target, ACTIONS[ai])
+            o = nod.ParGroup(target, action_arg)
         hist.append([op, ACTIONS[ai], tk])
         if o.node_id != nxt:
             raise Violation(f'{op} got node id {o.node_id}, the allocator\'s next id was {nxt}', None, data('own-id'))
@@ -611,6 +612,52 @@ def check_cmds(ctx, cmds, hist, ledger_nodes, known_bufs, data, buses=()):
     ctx.discharged += 1
 
 
+def spelling_scenario(ctx):
+    """every documented spelling of every add action (traditional name, simple name, one letter, number) reaches the
+    wire as the server's action number, for synths, groups and parallel groups"""
+    m = N()
+    nod, srv, main = m['nod'], m['srv'], m['main']
+    server = srv.Server.default
+    ai = ctx.choose('action', 5)
+    sp = ctx.choose('spelling', 4)
+    kind = ctx.choose('kind', 3)
+    arg = [ACTIONS[ai], ['head', 'tail', 'before', 'after', 'replace'][ai], 'htbar'[ai], ai][sp]
+    rec = {'mode': 'nrt', 'kind': 'spelling', 'sel': {'action': ai, 'spelling': sp, 'kind': kind}}
+    if hasattr(main, 'reset'):
+        main.reset()
+    server._new_allocators()
+    with Recorder(main) as R:
+        target = nod.Group(server)
+        n0 = len(R.sent)
+        if kind == 0:
+            o = nod.Synth('default', ['freq', 440], target, arg)
+        elif kind == 1:
+            o = nod.Group(target, arg)
+        else:
+            o = nod.ParGroup(target, arg)
+        cmds = R.commands()[n0:] if False else [c for s_ in R.sent[n0:] for c in ([s_[1]] if s_[0] == 'msg' else s_[2])]
+    if hasattr(main, 'reset'):
+        main.reset()
+    name = ['/s_new', '/g_new', '/p_new'][kind]
+    mine = [c for c in cmds if c[0] == name]
+    got = None if len(mine) != 1 else (mine[0][3] if kind == 0 else mine[0][2])
+    if got != ai:
+        raise Violation(f'{name} created with add action {arg!r} carries action number {got!r}; the server\'s number for '
+                        f'{ACTIONS[ai]} is {ai}', None, {'key': 'c17:spelling', 'replay': rec})
+    ctx.obligations += 1
+    ctx.discharged += 1
+    ctx.note('spelling')
+    return {'action': arg}
+
+
+def job_spelling(j):
+    st = explore(spelling_scenario, max_paths=1000, timeout_ms=5000, stop_on_violation=True)
+    d = st.as_dict()
+    for v in d['violations']:
+        v['data']['replay']['what'] = v['what']
+    return d
+
+
 def job(j):
     tier_deep[0] = j.get('deep', False)
     st = explore(lambda c: scenario(c, j['nops'], j['first'], j['bind']), max_paths=300000, timeout_ms=10000,
@@ -650,6 +697,12 @@ class _CCtx:
 
 
 def replay(rec):
+    if rec.get('kind') == 'spelling':
+        try:
+            spelling_scenario(_CCtx(dict(rec['sel'])))
+        except Violation as v:
+            return v.what
+        return None
     ctx = _CCtx(rec.get('values', {}))
     tier_deep[0] = rec.get('deep', False)
     try:
@@ -688,6 +741,9 @@ def main(tier, seed):
     for r in run_jobs('vf.props.c17', 'job', [j for j in jobs if j['bind']], 'rt'):
         chk.add('histories', r)
     chk.require_notes('histories', ['bind0', 'bind1', 'bind2'] + ['op:' + o for o in OPS])
+    for r in run_jobs('vf.props.c17', 'job_spelling', [dict()], 'nrt'):
+        chk.add('spelling', r)
+    chk.require_notes('spelling', ['spelling'])
     chk.bounds = {'history_length': f'{nops} outside bind(), {nops - 1} inside', 'operations': OPS, 'add_actions': ACTIONS,
                   'targets': 'server/default group, an existing node, root node id 0',
                   'consecutive_buffers': '1..4 (symbolic)', 'bind': 'outside, inside bind(), inside bind() with an '
